@@ -284,6 +284,23 @@ func RunHarness(h *Harness, opt *Options) (*Result, error) {
 							vr.Reproduced = true
 						}
 					}
+					if !vr.Reproduced && o.Outcome == "ok" {
+						// the native run may depend on Go's randomised map iteration (e.g. an
+						// ordering that is not total): replay the same case repeatedly
+						many := make([]NativeCase, 40)
+						for i := range many {
+							many[i] = vr.Case
+						}
+						if outs2, err := NativeReplay(opt, h.Pkg, l.ov, many); err == nil {
+							for _, o2 := range outs2 {
+								for _, f := range o2.Fails {
+									if labelOf(f) == v.Label {
+										vr.Reproduced = true
+									}
+								}
+							}
+						}
+					}
 				}
 			}
 			if !vr.Reproduced && len(v.Sched) > 0 && !strings.HasPrefix(v.Label, "race:") {
